@@ -97,7 +97,7 @@ func runC09(c *Ctx, r *Report, tier string) {
 	r.Rule("ERR-blocks", "every error produced in the argument loop is stored to parseState.err (directly or by a callee proven to do so) or handled by a recovery reachable only for ErrUnknownFlag, on every path to the loop header or exit", 4)
 	r.Rule("ERR-recovery", "REQ(recovery site; wrapError(err).Type == ErrUnknownFlag)", 2)
 	r.Rule("ERR-summary", "callee summary: every return of a possibly non-nil error is preceded by a store to parseState.err (exceptions are checked against the dispatch-blocking predicate)", 2)
-	r.Rule("SAME-args", "dispatch operand, success return and nothing else: parseState.retargs; failing return is printError(reterr) and printError returns its argument", 3)
+	r.Rule("SAME-args", "dispatched command: parseState.command.data; dispatch operand, success return and nothing else: parseState.retargs; failing return is printError(reterr) and printError returns its argument", 3)
 	r.Rule("COMPLETE-pure", "functions reachable from (*completion).complete contain no dispatch and do not reach Option.Set / Option.call", 1)
 	r.Rule("HELP-aborts", "every return of (*Parser).showBuiltinHelp is a non-nil *Error of type ErrHelp", 1)
 
@@ -143,6 +143,17 @@ func runC09(c *Ctx, r *Report, tier string) {
 		args := ci.Common().Args
 		a := args[len(args)-1]
 		r.Check(strings.HasPrefix(c.term(a), "parseState.retargs("), "SAME-args", c.fname(pa), "operand of dispatch "+dispatchDesc(c, t), c.ipos(t), "operand is load(parseState.retargs)", "dispatch receives "+c.term(a)+" instead of parseState.retargs")
+		// the command that runs is the innermost one the argument loop selected (parseState.command), taken from no other chain
+		var who ssa.Value
+		if ci.Common().IsInvoke() {
+			who = ci.Common().Value
+		} else if len(args) >= 2 {
+			who = args[0]
+		}
+		if who != nil {
+			wt := c.term(who)
+			r.Check(wt == "nil" || strings.Contains(wt, "Group.data(Command.Group(parseState.command("), "SAME-args", c.fname(pa), "command run by dispatch "+dispatchDesc(c, t), c.ipos(t), "the Commander is parseState.command.data", "the dispatched command is "+trunc(wt, 120)+", not the command the argument loop selected")
+		}
 	}
 	var okRet, failRet int
 	for _, ret := range returnsOf(pa) {
